@@ -1,4 +1,5 @@
 import CnlProofs.Overflow
+import CnlProofs.Parse
 import CnlModel.ScaledReps
 /-!
 # Lemmas for C01 over wrapped representations (`CnlModel/ScaledReps.lean`)
@@ -61,4 +62,83 @@ theorem binOpB_left_eq (op : BinOp) (x : ESNum) (B : IntTy) (b : Int)
   · simp [binOpB, ElasticScaled.binOp, Opnd.exp, Opnd.raw, ofBuiltin, he, ElasticScaled.scaleUp]
   · simp [binOpB, ElasticScaled.binOp, Opnd.exp, Opnd.raw, ofBuiltin, he, ElasticScaled.scaleUp]
 
+/-! ## multi-word wide_integer representations and `constant<V>` operands -/
+
+/-- the two's-complement range of `N` bits -/
+def InBits (N : Nat) (signed : Bool) (v : Int) : Prop :=
+  if signed then -(2 : Int)^(N - 1) ≤ v ∧ v < (2 : Int)^(N - 1) else 0 ≤ v ∧ v < (2 : Int)^N
+
+instance (N : Nat) (s : Bool) (v : Int) : Decidable (InBits N s v) := by unfold InBits; exact inferInstance
+
+theorem wrapTo_id (N : Nat) (hN : 1 ≤ N) (s : Bool) (v : Int) (h : InBits N s v) : wrapTo N s v = v := by
+  have hM : (2 : Int)^N = 2 * (2 : Int)^(N - 1) := by
+    obtain ⟨k, rfl⟩ : ∃ k, N = k + 1 := ⟨N - 1, by omega⟩
+    simp [Int.pow_succ, Int.mul_comm]
+  have hP : 0 < (2 : Int)^(N - 1) := Int.pow_pos (by decide)
+  unfold InBits at h
+  unfold wrapTo
+  rw [hM] at h ⊢
+  generalize (2 : Int)^(N - 1) = P at *
+  cases s
+  · simp at h
+    simp
+    exact Int.emod_eq_of_lt h.1 h.2
+  · simp at h
+    by_cases hv : 0 ≤ v
+    · have e : v % (2 * P) = v := Int.emod_eq_of_lt hv (by omega)
+      simp [e]; omega
+    · have e : v % (2 * P) = v + 2 * P := by
+        rw [← Int.add_emod_right v (2 * P)]
+        exact Int.emod_eq_of_lt (by omega) (by omega)
+      simp [e]; omega
+
+/-- `default_scale` in the storage is the exact product when the power and the product fit -/
+theorem wScale_exact (f : Wide.Fmt) (hN : 1 ≤ f.N) (ρ k : Nat) (v : Int)
+    (hp : InBits f.N f.signed ((ρ : Int)^k)) (hv : InBits f.N f.signed (v * (ρ : Int)^k)) :
+    wScale f ρ k v = v * (ρ : Int)^k := by
+  unfold wScale
+  rw [wrapTo_id _ hN _ _ hp, wrapTo_id _ hN _ _ hv]
+
+theorem wwBin_mul_exact (ρ : Nat) (x y : WNum) (f : Wide.Fmt) (hN : 1 ≤ f.N)
+    (hx : wFmt x.digits x.narrowest = some f) (hy : wFmt y.digits y.narrowest = some f) (hn : x.narrowest = y.narrowest)
+    (hr : InBits f.N f.signed (x.value * y.value)) :
+    wwBin ρ .mul x y = .ok ⟨max x.digits y.digits, x.narrowest, x.exp + y.exp, x.value * y.value⟩ := by
+  rw [hn] at hx
+  unfold wwBin
+  simp [hx, hy, hn, wrapTo_id _ hN _ _ hr]
+
+theorem wwBin_add_sub_exact (op : BinOp) (hop : op = .add ∨ op = .sub) (ρ : Nat) (x y : WNum) (f : Wide.Fmt) (hN : 1 ≤ f.N)
+    (hx : wFmt x.digits x.narrowest = some f) (hy : wFmt y.digits y.narrowest = some f) (hn : x.narrowest = y.narrowest)
+    (a b : Int)
+    (ha : a = x.value * (ρ : Int)^(x.exp - min x.exp y.exp).toNat) (hb : b = y.value * (ρ : Int)^(y.exp - min x.exp y.exp).toNat)
+    (hpa : InBits f.N f.signed ((ρ : Int)^(x.exp - min x.exp y.exp).toNat))
+    (hpb : InBits f.N f.signed ((ρ : Int)^(y.exp - min x.exp y.exp).toNat))
+    (hfa : InBits f.N f.signed a) (hfb : InBits f.N f.signed b)
+    (hr : InBits f.N f.signed (if op = .add then a + b else a - b)) :
+    wwBin ρ op x y = .ok ⟨max x.digits y.digits, x.narrowest, min x.exp y.exp, if op = .add then a + b else a - b⟩ := by
+  subst ha hb
+  have sa := wScale_exact f hN ρ _ x.value hpa hfa
+  have sb := wScale_exact f hN ρ _ y.value hpb hfb
+  rw [hn] at hx
+  unfold wwBin
+  by_cases he : x.exp = y.exp
+  · have h0 : (y.exp - min y.exp y.exp).toNat = 0 := by simp
+    simp only [he, h0, Int.pow_zero, Int.mul_one] at hr ⊢
+    rcases hop with h | h <;> subst h <;> simp [hx, hy, hn] at hr ⊢ <;> exact wrapTo_id _ hN _ _ hr
+  · rcases hop with h | h <;> subst h <;> simp [hx, hy, hn, he, sa, sb] at hr ⊢ <;> exact wrapTo_id _ hN _ _ hr
+
+/-- a `constant<V>` operand is a scaled_integer over a SIGNED built-in representation holding `V` exactly -/
+theorem builtinSigned_signed (d : Nat) (t : IntTy) (h : Parse.builtinSigned d = some t) : t.signed = true := by
+  by_cases h1 : d ≤ 31 <;> by_cases h2 : d ≤ 63 <;> by_cases h3 : d ≤ 127 <;>
+    simp [Parse.builtinSigned, h1, h2, h3] at h <;> (try (subst h; rfl))
+
+theorem constNum_signed (v : Int) (c : Num) (h : constNum v = .ok c) :
+    ∃ t e, c.1 = .sc (.int t) (e : Nat) 2 ∧ t.signed = true ∧ c.2 * (2 : Int)^e = v := by
+  unfold constNum Parse.makeScaledInteger at h
+  cases hb : Parse.builtinSigned (max 31 (Parse.usedDigits v - Parse.trailingBits v)) with
+  | none => simp [hb, bind, Res.bind] at h
+  | some t =>
+    simp [hb, bind, Res.bind] at h
+    subst h
+    exact ⟨t, Parse.trailingBits v, rfl, builtinSigned_signed _ _ hb, ParseProofs.shiftOut_exact v⟩
 end Cnl.ScaledRepsP
